@@ -163,7 +163,7 @@ func runFundProposal(ctx *action.Context, tx action.RawTx) (bool, action.Respons
 		proposal.Status = governance.ProposalStatusVoting
 		options, err := ctx.GovernanceStore.GetProposalOptionsByType(proposal.Type)
 		if err != nil {
-			helpers.LogAndReturnFalse(ctx.Logger, governance.ErrGetProposalOptions, fundProposal.Tags(), err)
+			return helpers.LogAndReturnFalse(ctx.Logger, governance.ErrGetProposalOptions, fundProposal.Tags(), err)
 		}
 		proposal.VotingDeadline = ctx.Header.Height + options.VotingDeadline
 
